@@ -447,6 +447,11 @@ func genRuns(r *simkit.RNG, sc *Scenario, k *knobs, profile string) {
 		return PackRun{Spelling: "abs", Cwd: "/cwd"}
 	}
 	defer func() {
+		if hr := simkit.NewRNG(sc.Seed, "pw/hist-after"); len(sc.History) > 0 && !sc.Conc && len(sc.Runs) >= 2 && hr.Chance(1, 2) {
+			sc.HistAfter = 1
+		}
+	}()
+	defer func() {
 		// a link to the parent of the source directory: dereferencing it would copy the
 		// whole arena (the auxiliary trees included), which the provenance model does not describe
 		for _, n := range sc.Tree {
